@@ -272,7 +272,7 @@ def run_check(pid: str, tier: str, body: Callable[[Checker], None]) -> int:
         body(ck)
         if tier == "thorough" and not os.environ.get("PYOAK_VERIF_REPO"):
             try:
-                ck.sensitivity = sensitivity_audit(pid)
+                ck.sensitivity = sensitivity_audit(pid, {repo.mods[n].rel for n in repo.consulted if n in repo.mods})
             except Exception as e:  # the audit is informational, never a verdict
                 ck.sensitivity = {"error": f"{type(e).__name__}: {e}"}
         return ck.finish()
@@ -285,7 +285,7 @@ def run_check(pid: str, tier: str, body: Callable[[Checker], None]) -> int:
         return 2
 
 
-def sensitivity_audit(pid: str) -> dict[str, Any]:
+def sensitivity_audit(pid: str, consulted: set[str] | None = None) -> dict[str, Any]:
     """Thorough tier: re-derive the recorded breaking / behaviour-preserving variants of this property from the
     current tree (scratch copies outside /repo and /verif, removed afterwards) and run the quick analysis on each.
     Informational: it measures that the rules still have teeth on today's source; it is never a verdict on /repo."""
@@ -332,9 +332,17 @@ def sensitivity_audit(pid: str) -> dict[str, Any]:
             continue
         if meta.get("breaks_property") == pid:
             corpus.append({"name": "seeded:" + os.path.basename(d), "patch": os.path.join(d, "patch.diff"), "expect": "fire"})
+    skipped = 0
     for d in sorted(glob.glob(str(VERIF / "refactors" / "*"))):
-        if os.path.exists(os.path.join(d, "patch.diff")):
-            corpus.append({"name": "refactor:" + os.path.basename(d), "patch": os.path.join(d, "patch.diff"), "expect": "silent"})
+        pf = os.path.join(d, "patch.diff")
+        if os.path.exists(pf):
+            if consulted is not None:
+                # only the refactorings that touch a module this property's rules consult can change its verdict
+                touched = {l[6:].strip() for l in open(pf, errors="replace") if l.startswith("+++ b/")}
+                if not (touched & consulted):
+                    skipped += 1
+                    continue
+            corpus.append({"name": "refactor:" + os.path.basename(d), "patch": pf, "expect": "silent"})
 
     def one_patch(case: dict[str, Any]) -> tuple[str, str]:
         tmp = tempfile.mkdtemp(prefix="pyoakverif-audit-")
@@ -353,7 +361,7 @@ def sensitivity_audit(pid: str) -> dict[str, Any]:
 
     with cf.ThreadPoolExecutor(16) as ex:
         results = list(ex.map(one, cases)) + list(ex.map(one_patch, corpus))
-    summary: dict[str, Any] = {"variants": len(results), "selftest_variants": len(cases), "stored_patches": len(corpus)}
+    summary: dict[str, Any] = {"variants": len(results), "selftest_variants": len(cases), "stored_patches": len(corpus), "refactorings_not_touching_consulted_modules": skipped}
     for k in ("detected", "missed", "incomplete", "silent", "alarm", "not-applicable"):
         names = [n for n, r in results if r == k]
         summary[k] = len(names)
